@@ -21,11 +21,17 @@ pub struct Field {
     /// start and length of the enclosing table (or of the file for header fields)
     pub tstart: usize,
     pub tlen: usize,
+    /// reference classes (FaultModel!RefClasses): the value that makes the field refer to the
+    /// structure that contains it / to that structure's parent; -1 = the field has no such reference.
+    /// Offsets: in the field's own base.  Indices: glyph id, subroutine number (as encoded in the
+    /// field: biased, in the operand's own number format), lookup index.
+    pub selfv: i64,
+    pub parentv: i64,
 }
 
 impl Field {
     pub fn json(&self) -> Value {
-        json!([self.off, self.w, self.role, self.level, self.tbl, self.name, self.tstart, self.tlen])
+        json!([self.off, self.w, self.role, self.level, self.tbl, self.name, self.tstart, self.tlen, self.selfv, self.parentv])
     }
     pub fn from_json(v: &Value) -> Field {
         let role = v[2].as_str().unwrap();
@@ -39,6 +45,8 @@ impl Field {
             name: v[5].as_str().unwrap().to_string(),
             tstart: v[6].as_u64().unwrap() as usize,
             tlen: v[7].as_u64().unwrap() as usize,
+            selfv: v.get(8).and_then(|x| x.as_i64()).unwrap_or(-1),
+            parentv: v.get(9).and_then(|x| x.as_i64()).unwrap_or(-1),
         }
     }
 }
@@ -70,6 +78,42 @@ impl RecInfo {
     }
 }
 
+/// state of the charstring interpreter of the walk (`Walk::cs_exec`)
+struct Cs {
+    cff2: bool,
+    gsubr_at: usize,
+    gcount: usize,
+    lsubr_at: usize,
+    lcount: usize,
+    /// (value, position of the literal, width of the field, number format: 1 = one byte, 2 = two bytes
+    /// 247..254, 3 = i16 after 28, 4 = 16.16 after 255); width 0 = not a literal
+    stack: Vec<(i64, usize, u8, u8)>,
+    stems: usize,
+    wp: bool,
+    /// subroutines being executed: (global?, number)
+    frames: Vec<(bool, usize)>,
+    steps: usize,
+    region_counts: Vec<usize>,
+    vsindex: usize,
+    emitted_top: usize,
+    emitted_sub: usize,
+    seen: std::collections::BTreeSet<usize>,
+    seac: usize,
+    done: bool,
+}
+
+/// the field value that encodes the charstring number `v` in the number format `fmt` (see `Cs::stack`)
+fn encode_cs_number(v: i64, fmt: u8) -> Option<i64> {
+    match fmt {
+        1 if (-107..=107).contains(&v) => Some(v + 139),
+        2 if (108..=1131).contains(&v) => Some(((247 + (v - 108) / 256) << 8) | ((v - 108) % 256)),
+        2 if (-1131..=-108).contains(&v) => Some(((251 + (-v - 108) / 256) << 8) | ((-v - 108) % 256)),
+        3 if (-32768..=32767).contains(&v) => Some((v as i16 as u16) as i64),
+        4 if (-32768..=32767).contains(&v) => Some((((v as i32) << 16) as u32) as i64),
+        _ => None,
+    }
+}
+
 pub struct Walk<'a> {
     pub d: &'a [u8],
     pub out: Vec<Field>,
@@ -78,6 +122,20 @@ pub struct Walk<'a> {
     tstart: usize,
     tlen: usize,
     level: &'static str,
+    /// fields are not recorded (a structure is parsed only for what it says about others)
+    mute: bool,
+}
+
+/// Glyph ids the `outlines` entry point group visits for a font that declares `n` glyphs
+/// ({0, 1, n-1, n, 65535}, the first 64, a spread of 24 more).  The walk takes composite glyphs and
+/// charstrings that call subroutines from the same list, so that a fault on one of them is executed.
+pub fn outline_gids(n: u16) -> Vec<u16> {
+    let mut v = vec![0u16, 1, n.wrapping_sub(1), n, 65535];
+    v.extend((2..n.min(64)).chain(std::iter::once(n / 2)).filter(|g| *g < n));
+    v.extend((64..n).step_by((n as usize / 24).max(1)).take(24));
+    let mut seen = std::collections::BTreeSet::new();
+    v.retain(|g| seen.insert(*g));
+    v
 }
 
 fn tag_string(b: &[u8]) -> String {
@@ -86,7 +144,7 @@ fn tag_string(b: &[u8]) -> String {
 
 impl<'a> Walk<'a> {
     pub fn new(d: &'a [u8]) -> Walk<'a> {
-        Walk { d, out: Vec::new(), recs: Vec::new(), tbl: String::new(), tstart: 0, tlen: d.len(), level: "dir" }
+        Walk { d, out: Vec::new(), recs: Vec::new(), tbl: String::new(), tstart: 0, tlen: d.len(), level: "dir", mute: false }
     }
     fn enter(&mut self, tbl: &str, start: usize, len: usize, level: &'static str) {
         self.tbl = tbl.to_string();
@@ -97,7 +155,29 @@ impl<'a> Walk<'a> {
     /// field at `rel` (relative to the current table)
     fn f(&mut self, rel: usize, w: u8, role: &'static str, name: &str) {
         if rel + w as usize <= self.tlen {
-            self.out.push(Field { off: self.tstart + rel, w, role, level: self.level, tbl: self.tbl.clone(), name: name.to_string(), tstart: self.tstart, tlen: self.tlen });
+            if !self.mute {
+                self.out.push(Field { off: self.tstart + rel, w, role, level: self.level, tbl: self.tbl.clone(), name: name.to_string(), tstart: self.tstart, tlen: self.tlen, selfv: -1, parentv: -1 });
+            }
+        }
+    }
+    /// field with references (see `Field::selfv`)
+    fn fr(&mut self, rel: usize, w: u8, role: &'static str, name: &str, sv: i64, pv: i64) {
+        let n = self.out.len();
+        self.f(rel, w, role, name);
+        if self.out.len() > n {
+            let max = if w >= 8 { i64::MAX } else { (1i64 << (8 * w as u32)) - 1 };
+            let l = self.out.last_mut().unwrap();
+            l.selfv = if sv > max { -1 } else { sv };
+            l.parentv = if pv > max { -1 } else { pv };
+        }
+    }
+    /// references of a field pushed earlier (position relative to the current table)
+    fn refs(&mut self, rel: usize, sv: i64, pv: i64) {
+        let abs = self.tstart + rel;
+        if let Some(l) = self.out.iter_mut().rev().find(|f| f.off == abs) {
+            let max = if l.w >= 8 { i64::MAX } else { (1i64 << (8 * l.w as u32)) - 1 };
+            l.selfv = if sv > max { -1 } else { sv };
+            l.parentv = if pv > max { -1 } else { pv };
         }
     }
     fn fs(&mut self, rel: usize, specs: &[(u8, &'static str, &str)]) -> usize {
@@ -159,6 +239,10 @@ impl<'a> Walk<'a> {
     }
 
     pub fn sfnt(&mut self, at: usize, walk_tables: bool) {
+        self.sfnt_in(at, walk_tables, -1)
+    }
+    /// `parent`: offset of the structure the directory hangs off (collection header), -1 = none
+    fn sfnt_in(&mut self, at: usize, walk_tables: bool, parent: i64) {
         let flen = self.d.len();
         self.enter("sfnt", 0, flen, "dir");
         self.fs(at, &[(4, "version", "sfntVersion"), (2, "count", "numTables"), (2, "value", "searchRange"), (2, "value", "entrySelector"), (2, "value", "rangeShift")]);
@@ -177,6 +261,8 @@ impl<'a> Walk<'a> {
             let len = self.u32(r + 12).unwrap();
             self.enter(&tag, 0, flen, "dir");
             self.fs(r, &[(4, "index", "rec.tag"), (4, "value", "rec.checkSum"), (4, "offset", "rec.offset"), (4, "length", "rec.length")]);
+            // the record sits in its directory: self = the table is the directory itself
+            self.refs(r + 8, at as i64, parent);
             self.recs.push(RecInfo { tag: tag.clone(), rec_off: r, rec_size: 16, off_field: r + 8, len_field: r + 12, count_field: at + 4, index: i, dir_start: at + 12, data_off: off, data_len: len });
             tables.push((tag, off, len));
         }
@@ -192,14 +278,14 @@ impl<'a> Walk<'a> {
         let n = self.u32(8).unwrap_or(0).min(16);
         let mut offs = Vec::new();
         for i in 0..n {
-            self.f(12 + 4 * i, 4, "offset", "offsetTable");
+            self.fr(12 + 4 * i, 4, "offset", "offsetTable", 0, -1);
             if let Some(o) = self.u32(12 + 4 * i) {
                 offs.push(o);
             }
         }
         for (i, o) in offs.into_iter().enumerate() {
             // tables are walked once, for the first member
-            self.sfnt(o, i == 0);
+            self.sfnt_in(o, i == 0, 0);
         }
     }
 
@@ -221,6 +307,7 @@ impl<'a> Walk<'a> {
             let orig = self.u32(r + 12).unwrap();
             self.enter(&tag, 0, flen, "dir");
             self.fs(r, &[(4, "index", "rec.tag"), (4, "offset", "rec.offset"), (4, "length", "rec.compLength"), (4, "length", "rec.origLength"), (4, "value", "rec.origChecksum")]);
+            self.refs(r + 4, 44, 0);
             self.recs.push(RecInfo { tag: tag.clone(), rec_off: r, rec_size: 20, off_field: r + 4, len_field: r + 8, count_field: 12, index: i, dir_start: 44, data_off: off, data_len: comp });
             if comp == orig {
                 plain.push((tag, off, comp));
@@ -364,6 +451,7 @@ impl<'a> Walk<'a> {
         let loca_long = get("head").and_then(|(o, l)| if l >= 52 { Some(self.d[o + 51] != 0) } else { None }).unwrap_or(false);
         let num_h = get("hhea").and_then(|(o, l)| if l >= 36 { Some(((self.d[o + 34] as usize) << 8) | self.d[o + 35] as usize) } else { None }).unwrap_or(0);
         let num_v = get("vhea").and_then(|(o, l)| if l >= 36 { Some(((self.d[o + 34] as usize) << 8) | self.d[o + 35] as usize) } else { None }).unwrap_or(0);
+        let fvar_axes = get("fvar").and_then(|(o, l)| if l >= 10 { Some(((self.d[o + 8] as usize) << 8) | self.d[o + 9] as usize) } else { None }).unwrap_or(0);
         let mut seen = std::collections::BTreeSet::new();
         for (tag, off, len) in tables {
             let (o, l) = (base + off, *len);
@@ -391,7 +479,9 @@ impl<'a> Walk<'a> {
                 "fvar" => self.fvar(),
                 "avar" => self.avar(),
                 "gvar" => self.gvar(),
-                "HVAR" | "VVAR" => self.hvar(),
+                "HVAR" => self.hvar(false),
+                "VVAR" => self.hvar(true),
+                "cvar" => self.cvar(fvar_axes),
                 "MVAR" => self.mvar(),
                 "STAT" => self.stat(),
                 "GSUB" | "GPOS" => self.layout(),
@@ -462,24 +552,32 @@ impl<'a> Walk<'a> {
             let p = lo + k * w;
             Some(if long { u32::from_be_bytes([d[p], d[p + 1], d[p + 2], d[p + 3]]) as usize } else { 2 * (((d[p] as usize) << 8) | d[p + 1] as usize) })
         };
-        // glyphs 0, 1, 2, last, plus the first composite glyphs found among the first 400
-        let mut gids: Vec<usize> = vec![0, 1, 2, 3, ng / 2, ng.saturating_sub(1)];
-        let mut comps = 0;
-        for g in 4..ng.min(400) {
-            if let (Some(a), Some(b)) = (at(g), at(g + 1)) {
-                if b > a && a + 2 <= self.tlen && self.d[self.tstart + a] == 0xFF {
-                    gids.push(g);
-                    comps += 1;
-                    if comps >= 3 {
-                        break;
-                    }
+        // simple glyphs 0..3, middle, last in detail; every composite glyph among the glyph ids the
+        // outlines group visits (first eight), each with all its component records, and the composite
+        // glyphs those refer to (one level), so that "component := the glyph itself / its parent" closes
+        // a cycle the group runs into
+        let simple: Vec<usize> = vec![0, 1, 2, 3, ng / 2, ng.saturating_sub(1)];
+        let is_comp = |w: &Walk, g: usize| -> bool {
+            match (at(g), at(g + 1)) {
+                (Some(a), Some(b)) => b > a && a + 2 <= w.tlen && w.d[w.tstart + a] >= 0x80,
+                _ => false,
+            }
+        };
+        let mut comps: Vec<(usize, i64)> = Vec::new(); // (gid, parent gid)
+        for g in outline_gids(ng.min(65535) as u16) {
+            let g = g as usize;
+            if g < ng && is_comp(self, g) && !comps.iter().any(|c| c.0 == g) {
+                comps.push((g, -1));
+                if comps.len() >= 8 {
+                    break;
                 }
             }
         }
+        let mut gids: Vec<usize> = simple.clone();
         gids.sort();
         gids.dedup();
         for g in gids {
-            if g >= ng {
+            if g >= ng || comps.iter().any(|c| c.0 == g) {
                 continue;
             }
             let (a, b) = match (at(g), at(g + 1)) {
@@ -502,7 +600,48 @@ impl<'a> Walk<'a> {
                     self.f(b - 1, 1, "value", &format!("{}.lastByte", nm));
                 }
             } else if nc >= 0x8000 {
-                self.fs(a + 10, &[(2, "version", &format!("{}.comp0.flags", nm)), (2, "index", &format!("{}.comp0.glyphIndex", nm)), (1, "value", &format!("{}.comp0.arg1", nm)), (1, "value", &format!("{}.comp0.arg2", nm))]);
+                comps.push((g, -1));
+            }
+        }
+        let mut k = 0;
+        while k < comps.len() && k < 16 {
+            let (g, parent) = comps[k];
+            k += 1;
+            let (a, b) = match (at(g), at(g + 1)) {
+                (Some(a), Some(b)) if b > a && b <= self.tlen => (a, b),
+                _ => continue,
+            };
+            let nm = format!("glyph[{}]", g);
+            self.fs(a, &[(2, "count", &format!("{}.numberOfContours", nm)), (2, "value", &format!("{}.xMin", nm)), (2, "value", &format!("{}.yMax", nm))]);
+            let mut p = a + 10;
+            for c in 0..8 {
+                let flags = match self.u16(p) {
+                    Some(f) if p + 4 <= b => f,
+                    _ => break,
+                };
+                let cn = format!("{}.comp{}", nm, c);
+                self.f(p, 2, "version", &format!("{}.flags", cn));
+                self.fr(p + 2, 2, "index", &format!("{}.glyphIndex", cn), g as i64, parent);
+                if let Some(child) = self.u16(p + 2) {
+                    if parent < 0 && child < ng && child != g && is_comp(self, child) && !comps.iter().any(|c| c.0 == child) {
+                        comps.push((child, g as i64));
+                    }
+                }
+                let aw = if flags & 1 != 0 { 2 } else { 1 };
+                self.f(p + 4, aw as u8, "value", &format!("{}.arg1", cn));
+                self.f(p + 4 + aw, aw as u8, "value", &format!("{}.arg2", cn));
+                p += 4 + 2 * aw;
+                let sw = if flags & 0x0008 != 0 { 2 } else if flags & 0x0040 != 0 { 4 } else if flags & 0x0080 != 0 { 8 } else { 0 };
+                if sw > 0 {
+                    self.f(p, 2, "value", &format!("{}.scale0", cn));
+                }
+                p += sw;
+                if flags & 0x0020 == 0 {
+                    if flags & 0x0100 != 0 {
+                        self.f(p, 2, "length", &format!("{}.numInstr", nm));
+                    }
+                    break;
+                }
             }
         }
     }
@@ -651,17 +790,141 @@ impl<'a> Walk<'a> {
     fn fvar(&mut self) {
         self.fs(0, &[(2, "version", "majorVersion"), (2, "version", "minorVersion"), (2, "offset", "axesArrayOffset"), (2, "value", "reserved"), (2, "count", "axisCount"), (2, "length", "axisSize"), (2, "count", "instanceCount"), (2, "length", "instanceSize")]);
         let (o, n, sz) = (self.u16(4).unwrap_or(16), self.u16(8).unwrap_or(0), self.u16(10).unwrap_or(20));
-        for k in 0..n.min(3) {
+        for k in 0..n.min(8) {
             self.fs(o + sz * k, &[(4, "index", &format!("axis[{}].tag", k)), (4, "value", &format!("axis[{}].minValue", k)), (4, "value", &format!("axis[{}].defaultValue", k)), (4, "value", &format!("axis[{}].maxValue", k)), (2, "value", &format!("axis[{}].flags", k)), (2, "index", &format!("axis[{}].nameID", k))]);
         }
         let io = o + sz * n;
-        self.fs(io, &[(2, "index", "instance0.subfamilyNameID"), (2, "value", "instance0.flags"), (4, "value", "instance0.coord0")]);
+        let (ni, isz) = (self.u16(12).unwrap_or(0), self.u16(14).unwrap_or(0));
+        for (k, kn) in [(0usize, "0"), (ni.saturating_sub(1), "last")] {
+            if k < ni && (k == 0 || ni > 1) {
+                let p = io + isz * k;
+                self.fs(p, &[(2, "index", &format!("instance[{}].subfamilyNameID", kn)), (2, "value", &format!("instance[{}].flags", kn))]);
+                for a in 0..n.min(4) {
+                    self.f(p + 4 + 4 * a, 4, "value", &format!("instance[{}].coord{}", kn, a));
+                }
+                if isz >= 4 + 4 * n + 2 {
+                    self.f(p + 4 + 4 * n, 2, "index", &format!("instance[{}].postScriptNameID", kn));
+                }
+            }
+        }
     }
     fn avar(&mut self) {
-        self.fs(0, &[(2, "version", "majorVersion"), (2, "version", "minorVersion"), (2, "value", "reserved"), (2, "count", "axisCount"), (2, "count", "seg0.positionMapCount"), (2, "value", "seg0.map0.from"), (2, "value", "seg0.map0.to"), (2, "value", "seg0.map1.from"), (2, "value", "seg0.map1.to")]);
+        self.fs(0, &[(2, "version", "majorVersion"), (2, "version", "minorVersion"), (2, "value", "reserved"), (2, "count", "axisCount")]);
+        let n = self.u16(6).unwrap_or(0);
+        let mut p = 8usize;
+        for a in 0..n.min(8) {
+            let c = match self.u16(p) {
+                Some(c) => c,
+                None => break,
+            };
+            self.f(p, 2, "count", &format!("seg[{}].positionMapCount", a));
+            for (k, kn) in [(0usize, "0"), (1, "1"), (c.saturating_sub(1), "last")] {
+                if k < c {
+                    self.fs(p + 2 + 4 * k, &[(2, "value", &format!("seg[{}].map[{}].from", a, kn)), (2, "value", &format!("seg[{}].map[{}].to", a, kn))]);
+                }
+            }
+            p += 2 + 4 * c;
+        }
+    }
+    /// packed point numbers at `p` (TupleVariationStore); returns the position after them
+    fn packed_points(&mut self, p: usize, nm: &str) -> usize {
+        let b0 = match self.u8(p) {
+            Some(b) => b,
+            None => return p,
+        };
+        let (count, mut q) = if b0 & 0x80 != 0 { (((b0 & 0x7f) << 8) | self.u8(p + 1).unwrap_or(0), p + 2) } else { (b0, p + 1) };
+        self.f(p, (q - p) as u8, "count", &format!("{}.pointCount", nm));
+        let (mut read, mut runs) = (0usize, 0usize);
+        while read < count {
+            let c = match self.u8(q) {
+                Some(c) => c,
+                None => return q,
+            };
+            let ew = if c & 0x80 != 0 { 2 } else { 1 };
+            let rc = (c & 0x7f) + 1;
+            if runs < 6 {
+                self.f(q, 1, "count", &format!("{}.pointRun[{}].control", nm, runs));
+                self.f(q + 1, ew as u8, "index", &format!("{}.pointRun[{}].first", nm, runs));
+            }
+            q += 1 + rc * ew;
+            read += rc;
+            runs += 1;
+        }
+        q
+    }
+    /// packed deltas in [p, end): every run control byte (first six runs) and the first delta of the run
+    fn packed_deltas(&mut self, p: usize, end: usize, nm: &str) {
+        let (mut q, mut runs) = (p, 0usize);
+        while q < end && runs < 4096 {
+            let c = match self.u8(q) {
+                Some(c) => c,
+                None => return,
+            };
+            let rc = (c & 0x3f) + 1;
+            let ew = if c & 0x80 != 0 { 0 } else if c & 0x40 != 0 { 2 } else { 1 };
+            if runs < 6 {
+                self.f(q, 1, "count", &format!("{}.deltaRun[{}].control", nm, runs));
+                if ew > 0 {
+                    self.f(q + 1, ew as u8, "value", &format!("{}.deltaRun[{}].first", nm, runs));
+                }
+            }
+            q += 1 + rc * ew;
+            runs += 1;
+        }
+    }
+    /// TupleVariationStore (gvar glyph variation data, cvar): tupleVariationCount at `cp`, dataOffset
+    /// after it, tuple variation headers at `hp`, serialized data at `base` + dataOffset
+    fn tuple_store(&mut self, cp: usize, hp: usize, base: usize, axis_count: usize, nm: &str) {
+        let tvc = match self.u16(cp) {
+            Some(v) => v,
+            None => return,
+        };
+        self.f(cp, 2, "count", &format!("{}.tupleVariationCount", nm));
+        self.f(cp + 2, 2, "offset", &format!("{}.dataOffset", nm));
+        let doff = self.u16(cp + 2).unwrap_or(0);
+        let n = tvc & 0x0fff;
+        let mut hp = hp;
+        let mut sizes: Vec<(usize, bool)> = Vec::new();
+        for t in 0..n.min(8) {
+            let (size, ti) = match (self.u16(hp), self.u16(hp + 2)) {
+                (Some(a), Some(b)) => (a, b),
+                _ => break,
+            };
+            self.f(hp, 2, "length", &format!("{}.hdr[{}].variationDataSize", nm, t));
+            self.f(hp + 2, 2, "index", &format!("{}.hdr[{}].tupleIndex", nm, t));
+            let mut q = hp + 4;
+            if ti & 0x8000 != 0 {
+                self.f(q, 2, "value", &format!("{}.hdr[{}].peak0", nm, t));
+                if axis_count > 1 {
+                    self.f(q + 2 * (axis_count - 1), 2, "value", &format!("{}.hdr[{}].peakLast", nm, t));
+                }
+                q += 2 * axis_count;
+            }
+            if ti & 0x4000 != 0 {
+                self.f(q, 2, "value", &format!("{}.hdr[{}].start0", nm, t));
+                self.f(q + 2 * axis_count, 2, "value", &format!("{}.hdr[{}].end0", nm, t));
+                q += 4 * axis_count;
+            }
+            sizes.push((size, ti & 0x2000 != 0));
+            hp = q;
+        }
+        let mut dp = base + doff;
+        if tvc & 0x8000 != 0 {
+            dp = self.packed_points(dp, &format!("{}.shared", nm));
+        }
+        for (t, (size, private)) in sizes.iter().enumerate().take(4) {
+            let end = dp + size;
+            let mut q = dp;
+            if *private {
+                q = self.packed_points(q, &format!("{}.tuple[{}]", nm, t));
+            }
+            self.packed_deltas(q, end, &format!("{}.tuple[{}]", nm, t));
+            dp = end;
+        }
     }
     fn gvar(&mut self) {
         self.fs(0, &[(2, "version", "majorVersion"), (2, "version", "minorVersion"), (2, "count", "axisCount"), (2, "count", "sharedTupleCount"), (4, "offset", "sharedTuplesOffset"), (2, "count", "glyphCount"), (2, "version", "flags"), (4, "offset", "glyphVariationDataArrayOffset")]);
+        let axes = self.u16(4).unwrap_or(0);
         let n = self.u16(12).unwrap_or(0);
         let long = self.u16(14).unwrap_or(0) & 1 == 1;
         let w = if long { 4 } else { 2 };
@@ -670,73 +933,292 @@ impl<'a> Walk<'a> {
                 self.f(20 + w * k, w as u8, "offset", &format!("offset[{}]", kn));
             }
         }
-        if let Some(so) = self.u32(4) {
-            self.fs(so, &[(2, "value", "sharedTuple0.coord0"), (2, "value", "sharedTuple0.coord1")]);
-        }
-        // variation data of the first glyphs that have some
-        let base = self.u32(16).unwrap_or(0);
-        let mut done = 0;
-        for g in 0..n.min(64) {
-            let (a, b) = match (self.un(20 + w * g, w), self.un(20 + w * (g + 1), w)) {
-                (Some(a), Some(b)) => if long { (a, b) } else { (2 * a, 2 * b) },
-                _ => break,
-            };
-            if b > a {
-                let p = base + a;
-                self.fs(p, &[(2, "count", &format!("gvd[{}].tupleVariationCount", g)), (2, "offset", &format!("gvd[{}].dataOffset", g)), (2, "length", &format!("gvd[{}].hdr0.variationDataSize", g)), (2, "index", &format!("gvd[{}].hdr0.tupleIndex", g)), (2, "value", &format!("gvd[{}].hdr0.next", g))]);
-                if let Some(dof) = self.u16(p + 2) {
-                    self.fs(p + dof, &[(1, "count", &format!("gvd[{}].data.byte0", g)), (1, "value", &format!("gvd[{}].data.byte1", g)), (1, "value", &format!("gvd[{}].data.byte2", g)), (1, "value", &format!("gvd[{}].data.byte3", g))]);
+        if let Some(so) = self.u32(8) {
+            let nt = self.u16(6).unwrap_or(0);
+            for (k, kn) in [(0usize, "0"), (nt.saturating_sub(1), "last")] {
+                if k < nt && (k == 0 || nt > 1) {
+                    self.f(so + 2 * axes * k, 2, "value", &format!("sharedTuple[{}].coord0", kn));
+                    if axes > 1 {
+                        self.f(so + 2 * axes * k + 2 * (axes - 1), 2, "value", &format!("sharedTuple[{}].coordLast", kn));
+                    }
                 }
-                done += 1;
-                if done >= 3 {
+            }
+        }
+        // variation data of the first four glyphs that have some, and of the last one
+        let base = self.u32(16).unwrap_or(0);
+        let range = |w_: &Walk, g: usize| -> Option<(usize, usize)> {
+            match (w_.un(20 + w * g, w), w_.un(20 + w * (g + 1), w)) {
+                (Some(a), Some(b)) if b > a => Some(if long { (a, b) } else { (2 * a, 2 * b) }),
+                _ => None,
+            }
+        };
+        let mut chosen: Vec<usize> = Vec::new();
+        for g in 0..n.min(4096) {
+            if range(self, g).is_some() {
+                chosen.push(g);
+                if chosen.len() >= 4 {
                     break;
                 }
             }
         }
+        if let Some(g) = (0..n.min(65536)).rev().find(|&g| range(self, g).is_some()) {
+            if !chosen.contains(&g) {
+                chosen.push(g);
+            }
+        }
+        for g in chosen {
+            if let Some((a, _)) = range(self, g) {
+                let p = base + a;
+                self.f(20 + w * g, w as u8, "offset", &format!("offset[gvd{}]", g));
+                self.tuple_store(p, p + 4, p, axes, &format!("gvd[{}]", g));
+            }
+        }
     }
-    fn ivs(&mut self, o: usize, nm: &str) {
-        self.fs(o, &[(2, "version", &format!("{}.format", nm)), (4, "offset", &format!("{}.variationRegionListOffset", nm)), (2, "count", &format!("{}.itemVariationDataCount", nm)), (4, "offset", &format!("{}.itemVariationDataOffset[0]", nm))]);
+    fn cvar(&mut self, axes: usize) {
+        self.fs(0, &[(2, "version", "majorVersion"), (2, "version", "minorVersion")]);
+        self.tuple_store(4, 8, 0, axes, "cvar");
+    }
+    /// ItemVariationStore at `o`: header, every ItemVariationData sub-table (first sixteen) with all
+    /// its counts and region indexes, the region list.  Returns regionIndexCount per sub-table.
+    fn ivs(&mut self, o: usize, nm: &str) -> Vec<usize> {
+        let mut out = Vec::new();
+        self.fs(o, &[(2, "version", &format!("{}.format", nm)), (4, "offset", &format!("{}.variationRegionListOffset", nm)), (2, "count", &format!("{}.itemVariationDataCount", nm))]);
         if let Some(r) = self.u32(o + 2) {
-            self.fs(o + r, &[(2, "count", &format!("{}.regions.axisCount", nm)), (2, "count", &format!("{}.regions.regionCount", nm)), (2, "value", &format!("{}.region0.start", nm)), (2, "value", &format!("{}.region0.peak", nm)), (2, "value", &format!("{}.region0.end", nm))]);
+            self.fs(o + r, &[(2, "count", &format!("{}.regions.axisCount", nm)), (2, "count", &format!("{}.regions.regionCount", nm))]);
+            let (ac, rc) = (self.u16(o + r).unwrap_or(0), self.u16(o + r + 2).unwrap_or(0));
+            for (k, kn) in [(0usize, "0"), (rc / 2, "mid"), (rc.saturating_sub(1), "last")] {
+                if k < rc {
+                    for a in 0..ac.min(4) {
+                        let p = o + r + 4 + 6 * (ac * k + a);
+                        self.fs(p, &[(2, "value", &format!("{}.region[{}].axis{}.start", nm, kn, a)), (2, "value", &format!("{}.region[{}].axis{}.peak", nm, kn, a)), (2, "value", &format!("{}.region[{}].axis{}.end", nm, kn, a))]);
+                    }
+                }
+            }
         }
-        if let Some(dv) = self.u32(o + 8) {
-            self.fs(o + dv, &[(2, "count", &format!("{}.data0.itemCount", nm)), (2, "count", &format!("{}.data0.wordDeltaCount", nm)), (2, "count", &format!("{}.data0.regionIndexCount", nm)), (2, "index", &format!("{}.data0.regionIndex[0]", nm))]);
+        let n = self.u16(o + 6).unwrap_or(0);
+        for k in 0..n.min(16) {
+            self.f(o + 8 + 4 * k, 4, "offset", &format!("{}.itemVariationDataOffset[{}]", nm, k));
+            let dv = match self.u32(o + 8 + 4 * k) {
+                Some(v) => o + v,
+                None => break,
+            };
+            let dn = format!("{}.data[{}]", nm, k);
+            self.fs(dv, &[(2, "count", &format!("{}.itemCount", dn)), (2, "count", &format!("{}.wordDeltaCount", dn)), (2, "count", &format!("{}.regionIndexCount", dn))]);
+            let (ic, wc, rc) = (self.u16(dv).unwrap_or(0), self.u16(dv + 2).unwrap_or(0), self.u16(dv + 4).unwrap_or(0));
+            out.push(rc);
+            for j in 0..rc.min(8) {
+                self.f(dv + 6 + 2 * j, 2, "index", &format!("{}.regionIndex[{}]", dn, j));
+            }
+            let long = wc & 0x8000 != 0;
+            let row = ((wc & 0x7fff) + rc) * if long { 2 } else { 1 };
+            let rows = dv + 6 + 2 * rc;
+            if ic > 0 && row > 0 {
+                self.f(rows, 1, "value", &format!("{}.row0.byte0", dn));
+                self.f(rows + row * ic - 1, 1, "value", &format!("{}.rowLast.byteLast", dn));
+            }
         }
+        out
     }
     fn dsim(&mut self, o: usize, nm: &str) {
         if o == 0 {
             return;
         }
         let fmt = self.u8(o).unwrap_or(0);
-        self.fs(o, &[(1, "version", &format!("{}.format", nm)), (1, "version", &format!("{}.entryFormat", nm)), (if fmt == 1 { 4 } else { 2 }, "count", &format!("{}.mapCount", nm)), (1, "index", &format!("{}.mapData[0]", nm)), (1, "index", &format!("{}.mapData[1]", nm))]);
+        let cw = if fmt == 1 { 4 } else { 2 };
+        self.fs(o, &[(1, "version", &format!("{}.format", nm)), (1, "version", &format!("{}.entryFormat", nm)), (cw, "count", &format!("{}.mapCount", nm))]);
+        let ef = self.u8(o + 1).unwrap_or(0);
+        let es = ((ef & 0x30) >> 4) + 1;
+        let n = self.un(o + 2, cw as usize).unwrap_or(0);
+        for (k, kn) in [(0usize, "0"), (1, "1"), (n / 2, "mid"), (n.saturating_sub(1), "last")] {
+            if k < n {
+                self.f(o + 2 + cw as usize + es * k, es as u8, "index", &format!("{}.mapData[{}]", nm, kn));
+            }
+        }
     }
-    fn hvar(&mut self) {
-        self.fs(0, &[(2, "version", "majorVersion"), (2, "version", "minorVersion"), (4, "offset", "itemVariationStoreOffset"), (4, "offset", "advanceMappingOffset"), (4, "offset", "lsbMappingOffset"), (4, "offset", "rsbMappingOffset")]);
+    fn hvar(&mut self, vvar: bool) {
+        self.fs(0, &[(2, "version", "majorVersion"), (2, "version", "minorVersion"), (4, "offset", "itemVariationStoreOffset"), (4, "offset", "advanceMappingOffset"), (4, "offset", if vvar { "tsbMappingOffset" } else { "lsbMappingOffset" }), (4, "offset", if vvar { "bsbMappingOffset" } else { "rsbMappingOffset" })]);
+        if vvar {
+            self.f(20, 4, "offset", "vOrgMappingOffset");
+        }
         if let Some(o) = self.u32(4) {
             self.ivs(o, "ivs");
         }
-        if let Some(o) = self.u32(8) {
-            self.dsim(o, "advMap");
-        }
-        if let Some(o) = self.u32(12) {
-            self.dsim(o, "lsbMap");
+        for (k, nm) in ["advMap", "lsbMap", "rsbMap", "vOrgMap"].iter().enumerate().take(if vvar { 4 } else { 3 }) {
+            if let Some(o) = self.u32(8 + 4 * k) {
+                self.dsim(o, nm);
+            }
         }
     }
     fn mvar(&mut self) {
-        self.fs(0, &[(2, "version", "majorVersion"), (2, "version", "minorVersion"), (2, "value", "reserved"), (2, "length", "valueRecordSize"), (2, "count", "valueRecordCount"), (2, "offset", "itemVariationStoreOffset"), (4, "index", "rec0.valueTag"), (2, "index", "rec0.deltaSetOuterIndex"), (2, "index", "rec0.deltaSetInnerIndex")]);
+        self.fs(0, &[(2, "version", "majorVersion"), (2, "version", "minorVersion"), (2, "value", "reserved"), (2, "length", "valueRecordSize"), (2, "count", "valueRecordCount"), (2, "offset", "itemVariationStoreOffset")]);
+        let (sz, n) = (self.u16(6).unwrap_or(8), self.u16(8).unwrap_or(0));
+        for (k, kn) in [(0usize, "0"), (n / 2, "mid"), (n.saturating_sub(1), "last")] {
+            if k < n {
+                self.fs(12 + sz * k, &[(4, "index", &format!("rec[{}].valueTag", kn)), (2, "index", &format!("rec[{}].deltaSetOuterIndex", kn)), (2, "index", &format!("rec[{}].deltaSetInnerIndex", kn))]);
+            }
+        }
         if let Some(o) = self.u16(10) {
             self.ivs(o, "ivs");
         }
     }
     fn stat(&mut self) {
         self.fs(0, &[(2, "version", "majorVersion"), (2, "version", "minorVersion"), (2, "length", "designAxisSize"), (2, "count", "designAxisCount"), (4, "offset", "designAxesOffset"), (2, "count", "axisValueCount"), (4, "offset", "offsetToAxisValueOffsets"), (2, "index", "elidedFallbackNameID")]);
+        let (asz, an) = (self.u16(4).unwrap_or(8), self.u16(6).unwrap_or(0));
         if let Some(o) = self.u32(8) {
-            self.fs(o, &[(4, "index", "axis0.tag"), (2, "index", "axis0.nameID"), (2, "value", "axis0.ordering")]);
+            for k in 0..an.min(8) {
+                self.fs(o + asz * k, &[(4, "index", &format!("axis[{}].tag", k)), (2, "index", &format!("axis[{}].nameID", k)), (2, "value", &format!("axis[{}].ordering", k))]);
+            }
         }
+        let vn = self.u16(12).unwrap_or(0);
         if let Some(o) = self.u32(14) {
-            self.f(o, 2, "offset", "axisValueOffset[0]");
-            if let Some(v) = self.u16(o) {
-                self.fs(o + v, &[(2, "version", "axisValue0.format"), (2, "index", "axisValue0.axisIndex"), (2, "value", "axisValue0.flags"), (2, "index", "axisValue0.valueNameID"), (4, "value", "axisValue0.value")]);
+            for k in 0..vn.min(16) {
+                self.f(o + 2 * k, 2, "offset", &format!("axisValueOffset[{}]", k));
+                let p = match self.u16(o + 2 * k) {
+                    Some(v) => o + v,
+                    None => break,
+                };
+                let nm = format!("axisValue[{}]", k);
+                let fmt = self.u16(p).unwrap_or(0);
+                self.f(p, 2, "version", &format!("{}.format", nm));
+                if fmt == 4 {
+                    self.fs(p + 2, &[(2, "count", &format!("{}.axisCount", nm)), (2, "value", &format!("{}.flags", nm)), (2, "index", &format!("{}.valueNameID", nm))]);
+                    let c = self.u16(p + 2).unwrap_or(0);
+                    for j in 0..c.min(4) {
+                        self.fs(p + 8 + 6 * j, &[(2, "index", &format!("{}.rec{}.axisIndex", nm, j)), (4, "value", &format!("{}.rec{}.value", nm, j))]);
+                    }
+                } else {
+                    self.fs(p + 2, &[(2, "index", &format!("{}.axisIndex", nm)), (2, "value", &format!("{}.flags", nm)), (2, "index", &format!("{}.valueNameID", nm)), (4, "value", &format!("{}.value", nm))]);
+                    if fmt == 2 {
+                        self.fs(p + 12, &[(4, "value", &format!("{}.rangeMin", nm)), (4, "value", &format!("{}.rangeMax", nm))]);
+                    } else if fmt == 3 {
+                        self.f(p + 12, 4, "value", &format!("{}.linkedValue", nm));
+                    }
+                }
+            }
+        }
+    }
+    /// SequenceLookupRecords of a (chained) sequence context sub-table at `sp` of lookup `li`:
+    /// lookupListIndex := li makes the lookup apply itself
+    fn seq_lookup_records(&mut self, p: usize, n: usize, li: usize, nm: &str) {
+        for k in 0..n.min(4) {
+            self.f(p + 4 * k, 2, "index", &format!("{}.rec{}.sequenceIndex", nm, k));
+            self.fr(p + 4 * k + 2, 2, "index", &format!("{}.rec{}.lookupListIndex", nm, k), li as i64, -1);
+        }
+    }
+    /// a rule of format 1 / 2 at `rp`
+    fn ctx_rule(&mut self, rp: usize, chain: bool, li: usize, nm: &str) {
+        if !chain {
+            self.fs(rp, &[(2, "count", &format!("{}.glyphCount", nm)), (2, "count", &format!("{}.seqLookupCount", nm))]);
+            let (g, n) = (self.u16(rp).unwrap_or(0), self.u16(rp + 2).unwrap_or(0));
+            self.seq_lookup_records(rp + 4 + 2 * g.saturating_sub(1), n, li, nm);
+        } else {
+            let mut p = rp;
+            for (k, part) in ["backtrack", "input", "lookahead"].iter().enumerate() {
+                self.f(p, 2, "count", &format!("{}.{}Count", nm, part));
+                let c = self.u16(p).unwrap_or(0);
+                p += 2 + 2 * if k == 1 { c.saturating_sub(1) } else { c };
+            }
+            self.f(p, 2, "count", &format!("{}.seqLookupCount", nm));
+            let n = self.u16(p).unwrap_or(0);
+            self.seq_lookup_records(p + 2, n, li, nm);
+        }
+    }
+    fn ctx_subtable(&mut self, sp: usize, chain: bool, li: usize, nm: &str) {
+        let fmt = self.u16(sp).unwrap_or(0);
+        self.f(sp, 2, "version", &format!("{}.format", nm));
+        match fmt {
+            1 | 2 => {
+                self.f(sp + 2, 2, "offset", &format!("{}.coverageOffset", nm));
+                let mut p = sp + 4;
+                if fmt == 2 {
+                    for c in 0..(if chain { 3 } else { 1 }) {
+                        self.f(p, 2, "offset", &format!("{}.classDefOffset{}", nm, c));
+                        p += 2;
+                    }
+                }
+                self.f(p, 2, "count", &format!("{}.ruleSetCount", nm));
+                let n = self.u16(p).unwrap_or(0);
+                let mut done = 0;
+                for k in 0..n.min(64) {
+                    let rs = match self.u16(p + 2 + 2 * k) {
+                        Some(0) | None => continue,
+                        Some(v) => sp + v,
+                    };
+                    self.f(p + 2 + 2 * k, 2, "offset", &format!("{}.ruleSetOffset[{}]", nm, k));
+                    self.f(rs, 2, "count", &format!("{}.ruleSet[{}].ruleCount", nm, k));
+                    if let Some(ro) = self.u16(rs + 2) {
+                        self.f(rs + 2, 2, "offset", &format!("{}.ruleSet[{}].ruleOffset[0]", nm, k));
+                        self.ctx_rule(rs + ro, chain, li, &format!("{}.ruleSet[{}].rule0", nm, k));
+                    }
+                    done += 1;
+                    if done >= 2 {
+                        break;
+                    }
+                }
+            }
+            3 => {
+                let mut p = sp + 2;
+                if !chain {
+                    self.fs(p, &[(2, "count", &format!("{}.glyphCount", nm)), (2, "count", &format!("{}.seqLookupCount", nm))]);
+                    let (g, n) = (self.u16(p).unwrap_or(0), self.u16(p + 2).unwrap_or(0));
+                    self.f(p + 4, 2, "offset", &format!("{}.coverageOffset[0]", nm));
+                    self.seq_lookup_records(p + 4 + 2 * g, n, li, nm);
+                } else {
+                    for part in ["backtrack", "input", "lookahead"] {
+                        self.f(p, 2, "count", &format!("{}.{}Count", nm, part));
+                        let c = self.u16(p).unwrap_or(0);
+                        if c > 0 {
+                            self.f(p + 2, 2, "offset", &format!("{}.{}Coverage[0]", nm, part));
+                        }
+                        p += 2 + 2 * c;
+                    }
+                    self.f(p, 2, "count", &format!("{}.seqLookupCount", nm));
+                    let n = self.u16(p).unwrap_or(0);
+                    self.seq_lookup_records(p + 2, n, li, nm);
+                }
+            }
+            _ => {}
+        }
+    }
+    /// contextual lookups (GSUB 5 / 6, GPOS 7 / 8, also behind an extension sub-table): the first four found
+    fn ctx_lookups(&mut self, lo: usize, gpos: bool) {
+        let n = self.u16(lo).unwrap_or(0);
+        let (ctx, chain, ext) = if gpos { (7, 8, 9) } else { (5, 6, 7) };
+        let mut found = 0;
+        for li in 0..n.min(512) {
+            let lp = match self.u16(lo + 2 + 2 * li) {
+                Some(l) => lo + l,
+                None => break,
+            };
+            let (ty, sc) = match (self.u16(lp), self.u16(lp + 4)) {
+                (Some(t), Some(c)) if c > 0 => (t, c),
+                _ => continue,
+            };
+            if ty != ctx && ty != chain && ty != ext {
+                continue;
+            }
+            let mut sp = match self.u16(lp + 6) {
+                Some(o) => lp + o,
+                None => continue,
+            };
+            let mut real = ty;
+            let nm = format!("lookup[{}].ctx", li);
+            if ty == ext {
+                real = self.u16(sp + 2).unwrap_or(0);
+                if real != ctx && real != chain {
+                    continue;
+                }
+                // extension sub-table: its offset is relative to itself (self = 0 = an extension of itself)
+                self.fs(sp, &[(2, "version", &format!("{}.ext.format", nm)), (2, "version", &format!("{}.ext.lookupType", nm)), (4, "offset", &format!("{}.ext.offset", nm))]);
+                sp += self.u32(sp + 4).unwrap_or(0);
+            }
+            let _ = sc;
+            self.f(lo + 2 + 2 * li, 2, "offset", &format!("lookupOffset[{}]", li));
+            self.fs(lp, &[(2, "version", &format!("lookup[{}].type", li)), (2, "value", &format!("lookup[{}].flag", li)), (2, "count", &format!("lookup[{}].subTableCount", li)), (2, "offset", &format!("lookup[{}].subTableOffset[0]", li))]);
+            self.ctx_subtable(sp, real == chain, li, &nm);
+            found += 1;
+            if found >= 4 {
+                break;
             }
         }
     }
@@ -761,6 +1243,8 @@ impl<'a> Walk<'a> {
             }
         }
         if let Some(lo) = self.u16(8) {
+            let gpos = self.tbl == "GPOS";
+            self.ctx_lookups(lo, gpos);
             self.f(lo, 2, "count", "lookupCount");
             let n = self.u16(lo).unwrap_or(0);
             for (k, kn) in [(0usize, "0"), (n / 2, "mid"), (n.saturating_sub(1), "last")] {
@@ -786,6 +1270,13 @@ impl<'a> Walk<'a> {
         }
         if minor >= 3 {
             self.f(14, 4, "offset", "itemVarStoreOffset");
+        }
+        if minor >= 3 {
+            if let Some(o) = self.u32(14) {
+                if o != 0 {
+                    self.ivs(o, "ivs");
+                }
+            }
         }
         if let Some(c) = self.u16(4) {
             if c != 0 {
@@ -834,9 +1325,11 @@ impl<'a> Walk<'a> {
         Some((data + a - 1, data + b - 1))
     }
     /// DICT in [a, b): operands become fields; returns (operator, operand values)
-    fn dict(&mut self, a: usize, b: usize, nm: &str) -> Vec<(usize, Vec<i64>)> {
+    /// `sv` / `pv`: for operands that are offsets from the start of the table, the offset of the
+    /// structure the DICT sits in and of that structure's parent (as numbers; encoded per operand)
+    fn dict(&mut self, a: usize, b: usize, nm: &str, sv: i64, pv: i64) -> Vec<(usize, Vec<i64>)> {
         let mut out = Vec::new();
-        let mut ops: Vec<(usize, usize, i64)> = Vec::new(); // (pos, width, value)
+        let mut ops: Vec<(usize, usize, i64, u8)> = Vec::new(); // (pos, width, value, number format: 1, 2, 3 as in charstrings, 5 = i32 after 29, 0 = real)
         let mut p = a;
         let mut guard = 0;
         while p < b && guard < 400 {
@@ -857,20 +1350,29 @@ impl<'a> Walk<'a> {
                     };
                     self.f(p, w as u8, "version", &format!("{}.op{}", nm, op));
                     let n = ops.len();
-                    for (k, (pos, wd, _)) in ops.iter().enumerate() {
+                    for (k, (pos, wd, _, fmt)) in ops.iter().enumerate() {
                         let role = if roles.len() == n { roles[k] } else if n > roles.len() && k >= n - roles.len() { roles[k - (n - roles.len())] } else { "value" };
-                        self.f(*pos, *wd as u8, role, &format!("{}.op{}.arg{}", nm, op, k));
+                        let enc = |v: i64| -> i64 {
+                            if role != "offset" || v < 0 {
+                                -1
+                            } else if *fmt == 5 {
+                                v
+                            } else {
+                                encode_cs_number(v, *fmt).unwrap_or(-1)
+                            }
+                        };
+                        self.fr(*pos, *wd as u8, role, &format!("{}.op{}.arg{}", nm, op, k), enc(sv), enc(pv));
                     }
                     out.push((op, ops.iter().map(|x| x.2).collect()));
                     ops.clear();
                     p += w;
                 }
                 28 => {
-                    ops.push((p + 1, 2, self.u16(p + 1).map(|v| v as i16 as i64).unwrap_or(0)));
+                    ops.push((p + 1, 2, self.u16(p + 1).map(|v| v as i16 as i64).unwrap_or(0), 3));
                     p += 3;
                 }
                 29 => {
-                    ops.push((p + 1, 4, self.u32(p + 1).map(|v| v as u32 as i32 as i64).unwrap_or(0)));
+                    ops.push((p + 1, 4, self.u32(p + 1).map(|v| v as u32 as i32 as i64).unwrap_or(0), 5));
                     p += 5;
                 }
                 30 => {
@@ -883,18 +1385,18 @@ impl<'a> Walk<'a> {
                             break;
                         }
                     }
-                    ops.push((s + 1, 1, 0));
+                    ops.push((s + 1, 1, 0, 0));
                 }
                 32..=246 => {
-                    ops.push((p, 1, b0 as i64 - 139));
+                    ops.push((p, 1, b0 as i64 - 139, 1));
                     p += 1;
                 }
                 247..=250 => {
-                    ops.push((p, 2, (b0 as i64 - 247) * 256 + self.u8(p + 1).unwrap_or(0) as i64 + 108));
+                    ops.push((p, 2, (b0 as i64 - 247) * 256 + self.u8(p + 1).unwrap_or(0) as i64 + 108, 2));
                     p += 2;
                 }
                 251..=254 => {
-                    ops.push((p, 2, -(b0 as i64 - 251) * 256 - self.u8(p + 1).unwrap_or(0) as i64 - 108));
+                    ops.push((p, 2, -(b0 as i64 - 251) * 256 - self.u8(p + 1).unwrap_or(0) as i64 - 108, 2));
                     p += 2;
                 }
                 _ => {
@@ -914,52 +1416,161 @@ impl<'a> Walk<'a> {
             self.f(a + n / 2, 1, "value", &format!("{}.mid", nm));
             self.f(b - 1, 1, "value", &format!("{}.last", nm));
         }
-        // operands of callsubr / callgsubr are indices of subroutines: light Type 2 tokeniser, stops
-        // at the first hint mask (whose length depends on the stem count)
+    }
+    /// Type 2 charstring interpreter, as far as the positions of things go (argument stack with the
+    /// place each literal came from, stem count for the hint masks, subroutine calls followed): the
+    /// operand of every callsubr / callgsubr it executes is an `index` field; inside a subroutine
+    /// "self" = the (biased, encoded) number of the subroutine being executed, "parent" = of the one
+    /// that called it.  Returns false when the program cannot be followed any further.
+    fn cs_exec(&mut self, a: usize, b: usize, cs: &mut Cs, nm: &str, depth: usize) -> bool {
         let mut p = a;
-        let mut last_num: Option<(usize, u8)> = None;
-        let mut calls = 0;
-        while p < b && calls < 4 {
+        while p < b {
+            cs.steps += 1;
+            if cs.steps > 200_000 {
+                return false;
+            }
             let b0 = match self.u8(p) {
                 Some(x) => x,
-                None => break,
+                None => return false,
             };
             match b0 {
                 28 => {
-                    last_num = Some((p + 1, 2));
+                    cs.stack.push((self.u16(p + 1).unwrap_or(0) as u16 as i16 as i64, p + 1, 2, 3));
                     p += 3;
                 }
                 32..=246 => {
-                    last_num = Some((p, 1));
+                    cs.stack.push((b0 as i64 - 139, p, 1, 1));
                     p += 1;
                 }
-                247..=254 => {
-                    last_num = Some((p, 2));
+                247..=250 => {
+                    cs.stack.push(((b0 as i64 - 247) * 256 + self.u8(p + 1).unwrap_or(0) as i64 + 108, p, 2, 2));
+                    p += 2;
+                }
+                251..=254 => {
+                    cs.stack.push((-(b0 as i64 - 251) * 256 - self.u8(p + 1).unwrap_or(0) as i64 - 108, p, 2, 2));
                     p += 2;
                 }
                 255 => {
-                    last_num = Some((p + 1, 4));
+                    cs.stack.push(((self.u32(p + 1).unwrap_or(0) as u32 as i32 >> 16) as i64, p + 1, 4, 4));
                     p += 5;
                 }
-                10 | 29 => {
-                    if let Some((np, w)) = last_num {
-                        self.f(np, w, "index", &format!("{}.{}.arg", nm, if b0 == 10 { "callsubr" } else { "callgsubr" }));
-                        calls += 1;
+                1 | 3 | 18 | 23 | 19 | 20 => {
+                    let mut len = cs.stack.len();
+                    if len % 2 == 1 && !cs.wp {
+                        cs.wp = true;
+                        len -= 1;
                     }
-                    last_num = None;
+                    cs.stems += len / 2;
+                    cs.stack.clear();
+                    p += 1;
+                    if b0 == 19 || b0 == 20 {
+                        p += (cs.stems + 7) / 8;
+                    }
+                }
+                4 | 22 | 21 => {
+                    cs.wp = true;
+                    cs.stack.clear();
                     p += 1;
                 }
-                19 | 20 => break,
+                10 | 29 => {
+                    let top = match cs.stack.pop() {
+                        Some(t) => t,
+                        None => return false,
+                    };
+                    let global = b0 == 29;
+                    let (at, count) = if global { (cs.gsubr_at, cs.gcount) } else { (cs.lsubr_at, cs.lcount) };
+                    if count == 0 {
+                        return false;
+                    }
+                    let bias: i64 = if count < 1240 { 107 } else if count < 33900 { 1131 } else { 32768 };
+                    if top.2 > 0 && !cs.seen.contains(&top.1) {
+                        let same: Vec<usize> = cs.frames.iter().rev().filter(|f| f.0 == global).map(|f| f.1).collect();
+                        let enc = |i: Option<&usize>| i.and_then(|i| encode_cs_number(*i as i64 - bias, top.3)).unwrap_or(-1);
+                        let (sv, pv) = (enc(same.first()), enc(same.get(1)));
+                        let room = if cs.frames.is_empty() { cs.emitted_top < 12 } else { cs.emitted_sub < 64 };
+                        if room {
+                            cs.seen.insert(top.1);
+                            if cs.frames.is_empty() {
+                                cs.emitted_top += 1;
+                            } else {
+                                cs.emitted_sub += 1;
+                            }
+                            self.fr(top.1, top.2, "index", &format!("{}.{}.arg", nm, if global { "callgsubr" } else { "callsubr" }), sv, pv);
+                        }
+                    }
+                    let idx = top.0 + bias;
+                    if idx < 0 || idx as usize >= count || depth >= 10 {
+                        return false;
+                    }
+                    let (sa, sb) = match self.index_item(at, idx as usize, cs.cff2) {
+                        Some(x) => x,
+                        None => return false,
+                    };
+                    cs.frames.push((global, idx as usize));
+                    let sub = format!("{}[{}]", if global { "gsubr" } else { "lsubr" }, idx);
+                    let r = self.cs_exec(sa, sb, cs, &sub, depth + 1);
+                    cs.frames.pop();
+                    if !r {
+                        return false;
+                    }
+                    if cs.done {
+                        return true;
+                    }
+                    p += 1;
+                }
+                11 => return !cs.cff2,
+                14 => {
+                    if !cs.cff2 && (cs.stack.len() == 4 || (!cs.wp && cs.stack.len() == 5)) {
+                        // seac: base and accent are character codes of the standard encoding
+                        let n = cs.stack.len();
+                        for (k, part) in [(n - 1, "achar"), (n - 2, "bchar")] {
+                            let t = cs.stack[k];
+                            if t.2 > 0 {
+                                self.f(t.1, t.2, "index", &format!("{}.seac.{}", nm, part));
+                                cs.seac += 1;
+                            }
+                        }
+                    }
+                    cs.done = true;
+                    return true;
+                }
+                15 if cs.cff2 => {
+                    cs.vsindex = cs.stack.pop().map(|t| t.0.max(0) as usize).unwrap_or(0);
+                    p += 1;
+                }
+                16 if cs.cff2 => {
+                    let n = match cs.stack.pop() {
+                        Some(t) => t.0.max(0) as usize,
+                        None => return false,
+                    };
+                    let k = cs.region_counts.get(cs.vsindex).copied().unwrap_or(0);
+                    let len = cs.stack.len();
+                    if n * (k + 1) > len {
+                        return false;
+                    }
+                    cs.stack.truncate(len - n * k);
+                    let len = cs.stack.len();
+                    for e in cs.stack[len - n..].iter_mut() {
+                        e.2 = 0;
+                    }
+                    p += 1;
+                }
                 12 => {
-                    last_num = None;
+                    // flex operators take everything; the arithmetic ones are not supported by allsorts either
+                    match self.u8(p + 1) {
+                        Some(34..=37) => cs.stack.clear(),
+                        _ => return false,
+                    }
                     p += 2;
                 }
+                0 | 2 | 9 | 13 | 17 => return false,
                 _ => {
-                    last_num = None;
+                    cs.stack.clear();
                     p += 1;
                 }
             }
         }
+        true
     }
     fn cff(&mut self, cff2: bool) {
         let top: Vec<(usize, Vec<i64>)>;
@@ -968,7 +1579,7 @@ impl<'a> Walk<'a> {
             self.fs(0, &[(1, "version", "major"), (1, "version", "minor"), (1, "length", "headerSize"), (2, "length", "topDictLength")]);
             let hs = self.u8(2).unwrap_or(5);
             let tl = self.u16(3).unwrap_or(0);
-            top = self.dict(hs, hs + tl, "top");
+            top = self.dict(hs, hs + tl, "top", 0, -1);
             gsubr_at = hs + tl;
         } else {
             self.fs(0, &[(1, "version", "major"), (1, "version", "minor"), (1, "length", "hdrSize"), (1, "length", "offSize")]);
@@ -981,8 +1592,10 @@ impl<'a> Walk<'a> {
                 Some(x) => x,
                 None => return,
             };
+            // offsets of the Top DICT count from the start of the table: self = the INDEX the DICT sits in,
+            // parent = the header
             top = match self.index_item(name_end, 0, false) {
-                Some((a, b)) => self.dict(a, b, "top"),
+                Some((a, b)) => self.dict(a, b, "top", name_end as i64, 0),
                 None => return,
             };
             let (_, _, _, str_end) = match self.index(top_end, "stringINDEX", false) {
@@ -991,20 +1604,21 @@ impl<'a> Walk<'a> {
             };
             gsubr_at = str_end;
         }
-        if self.index(gsubr_at, "gsubrINDEX", cff2).is_some() {
-            for k in 0..6 {
-                if let Some((a, b)) = self.index_item(gsubr_at, k, cff2) {
-                    self.charstring(a, b, &format!("gsubr[{}]", k));
-                }
+        let gcount = self.index(gsubr_at, "gsubrINDEX", cff2).map(|x| x.0).unwrap_or(0);
+        for k in 0..6 {
+            if let Some((a, b)) = self.index_item(gsubr_at, k, cff2) {
+                self.charstring(a, b, &format!("gsubr[{}]", k));
             }
         }
         let arg = |op: usize| top.iter().find(|x| x.0 == op).map(|x| x.1.clone());
         let mut n_glyphs = 0;
+        let mut cs_at = 0usize;
         if let Some(v) = arg(17) {
             if let Some(&cs) = v.last() {
                 let cs = cs.max(0) as usize;
                 if let Some((n, _, _, _)) = self.index(cs, "charStrings", cff2) {
                     n_glyphs = n;
+                    cs_at = cs;
                     for (k, kn) in [(0usize, "0"), (1, "1"), (2, "2"), (n / 2, "mid"), (n.saturating_sub(1), "last")] {
                         if let Some((a, b)) = self.index_item(cs, k, cff2) {
                             self.charstring(a, b, &format!("charstring[{}]", kn));
@@ -1013,17 +1627,29 @@ impl<'a> Walk<'a> {
                 }
             }
         }
-        let mut privates: Vec<(usize, usize, String)> = Vec::new();
+        // Private DICTs: of the font (CFF, not CID-keyed) or per Font DICT; (offset, size, name)
+        let mut privates: Vec<Option<(usize, usize, String)>> = Vec::new();
+        let mut cid = false;
         if let Some(v) = arg(18) {
             if v.len() >= 2 {
-                privates.push((v[v.len() - 1].max(0) as usize, v[v.len() - 2].max(0) as usize, "private".to_string()));
+                privates.push(Some((v[v.len() - 1].max(0) as usize, v[v.len() - 2].max(0) as usize, "private".to_string())));
             }
         }
         if let Some(v) = arg(15) {
             if let Some(&c) = v.last() {
                 if c > 2 {
                     let c = c as usize;
-                    self.fs(c, &[(1, "version", "charset.format"), (2, "index", "charset.first"), (2, "count", "charset.word1")]);
+                    let fmt = self.u8(c).unwrap_or(0);
+                    self.f(c, 1, "version", "charset.format");
+                    if fmt == 0 {
+                        self.f(c + 1, 2, "index", "charset.sid[1]");
+                        self.f(c + 1 + 2 * n_glyphs.saturating_sub(2), 2, "index", "charset.sid[last]");
+                    } else {
+                        let lw = if fmt == 1 { 1 } else { 2 };
+                        for k in 0..3 {
+                            self.fs(c + 1 + (2 + lw) * k, &[(2, "index", &format!("charset.range{}.first", k)), (lw as u8, "count", &format!("charset.range{}.nLeft", k))]);
+                        }
+                    }
                 }
             }
         }
@@ -1039,55 +1665,144 @@ impl<'a> Walk<'a> {
             if let Some(&fa) = v.last() {
                 let fa = fa.max(0) as usize;
                 if let Some((n, _, _, _)) = self.index(fa, "fdArray", cff2) {
-                    for k in 0..n.min(3) {
+                    cid = true;
+                    privates.clear();
+                    for k in 0..n.min(256) {
+                        // the first three Font DICTs in detail, the others only for where their subroutines are
+                        self.mute = k >= 3;
+                        let mut pr = None;
                         if let Some((a, b)) = self.index_item(fa, k, cff2) {
-                            let fd = self.dict(a, b, &format!("fd[{}]", k));
+                            let fd = self.dict(a, b, &format!("fd[{}]", k), fa as i64, 0);
                             if let Some(pv) = fd.iter().find(|x| x.0 == 18) {
                                 if pv.1.len() >= 2 {
-                                    privates.push((pv.1[pv.1.len() - 1].max(0) as usize, pv.1[pv.1.len() - 2].max(0) as usize, format!("fd[{}].private", k)));
+                                    pr = Some((pv.1[pv.1.len() - 1].max(0) as usize, pv.1[pv.1.len() - 2].max(0) as usize, format!("fd[{}].private", k)));
+                                }
+                            }
+                        }
+                        self.mute = false;
+                        privates.push(pr);
+                    }
+                }
+            }
+        }
+        let mut fdsel: Option<(usize, usize)> = None; // (position, format)
+        if let Some(v) = arg(1237) {
+            if let Some(&fs) = v.last() {
+                let fs = fs.max(0) as usize;
+                let fmt = self.u8(fs).unwrap_or(0);
+                fdsel = Some((fs, fmt));
+                self.f(fs, 1, "version", "fdSelect.format");
+                if fmt == 0 {
+                    self.f(fs + 1, 1, "index", "fdSelect.fd[0]");
+                    self.f(fs + 1 + n_glyphs / 2, 1, "index", "fdSelect.fd[mid]");
+                    self.f(fs + n_glyphs, 1, "index", "fdSelect.fd[last]");
+                } else if fmt == 3 {
+                    self.f(fs + 1, 2, "count", "fdSelect.nRanges");
+                    let nr = self.u16(fs + 1).unwrap_or(0);
+                    for k in 0..nr.min(8) {
+                        self.fs(fs + 3 + 3 * k, &[(2, "index", &format!("fdSelect.range{}.first", k)), (1, "index", &format!("fdSelect.range{}.fd", k))]);
+                    }
+                    self.f(fs + 3 + 3 * nr, 2, "index", "fdSelect.sentinel");
+                } else {
+                    self.f(fs + 1, 4, "count", "fdSelect.nRanges");
+                    let nr = self.u32(fs + 1).unwrap_or(0);
+                    for k in 0..nr.min(8) {
+                        self.fs(fs + 5 + 6 * k, &[(4, "index", &format!("fdSelect.range{}.first", k)), (2, "index", &format!("fdSelect.range{}.fd", k))]);
+                    }
+                    self.f(fs + 5 + 6 * nr, 4, "index", "fdSelect.sentinel");
+                }
+            }
+        }
+        let mut region_counts = Vec::new();
+        if let Some(v) = arg(24) {
+            if let Some(&vs) = v.last() {
+                let vs = vs.max(0) as usize;
+                self.f(vs, 2, "length", "vstore.length");
+                region_counts = self.ivs(vs + 2, "vstore");
+            }
+        }
+        // local subroutines and default vsindex per Private DICT
+        let mut lsubrs: Vec<(usize, usize, usize)> = Vec::new(); // (INDEX position, count, vsindex); count 0 = none
+        for (k, pr) in privates.iter().enumerate() {
+            let mut entry = (0usize, 0usize, 0usize);
+            if let Some((off, size, nm)) = pr {
+                self.mute = k >= 3;
+                // the Subrs offset counts from the Private DICT: self = 0 is the class "zero"; no parent in reach
+                let pd = self.dict(*off, off + size, nm, -1, -1);
+                if let Some(v) = pd.iter().find(|x| x.0 == 22) {
+                    entry.2 = v.1.last().copied().unwrap_or(0).max(0) as usize;
+                }
+                if let Some(s) = pd.iter().find(|x| x.0 == 19) {
+                    if let Some(&so) = s.1.last() {
+                        let at = (*off as i64 + so).max(0) as usize;
+                        if let Some((n, _, _, _)) = self.index(at, &format!("{}.subrs", nm), cff2) {
+                            entry.0 = at;
+                            entry.1 = n;
+                            for j in 0..6 {
+                                if let Some((a, b)) = self.index_item(at, j, cff2) {
+                                    self.charstring(a, b, &format!("{}.subr[{}]", nm, j));
                                 }
                             }
                         }
                     }
                 }
+                self.mute = false;
             }
+            lsubrs.push(entry);
         }
-        if let Some(v) = arg(1237) {
-            if let Some(&fs) = v.last() {
-                let fs = fs.max(0) as usize;
-                let fmt = self.u8(fs).unwrap_or(0);
-                self.f(fs, 1, "version", "fdSelect.format");
-                if fmt == 0 {
-                    self.f(fs + 1, 1, "index", "fdSelect.fd[0]");
-                    self.f(fs + n_glyphs, 1, "index", "fdSelect.fd[last]");
-                } else if fmt == 3 {
-                    self.fs(fs + 1, &[(2, "count", "fdSelect.nRanges"), (2, "index", "fdSelect.range0.first"), (1, "index", "fdSelect.range0.fd"), (2, "index", "fdSelect.range1.first")]);
-                    let nr = self.u16(fs + 1).unwrap_or(0);
-                    self.f(fs + 3 + 3 * nr, 2, "index", "fdSelect.sentinel");
-                } else {
-                    self.fs(fs + 1, &[(4, "count", "fdSelect.nRanges"), (4, "index", "fdSelect.range0.first"), (2, "index", "fdSelect.range0.fd")]);
-                }
+        // the charstrings the outlines group executes: subroutine call operands
+        let fd_of = |w: &Walk, g: usize| -> usize {
+            if !cid {
+                return 0;
             }
-        }
-        if let Some(v) = arg(24) {
-            if let Some(&vs) = v.last() {
-                let vs = vs.max(0) as usize;
-                self.f(vs, 2, "length", "vstore.length");
-                self.ivs(vs + 2, "vstore");
-            }
-        }
-        for (off, size, nm) in privates {
-            let pd = self.dict(off, off + size, &nm);
-            if let Some(s) = pd.iter().find(|x| x.0 == 19) {
-                if let Some(&so) = s.1.last() {
-                    let at = (off as i64 + so).max(0) as usize;
-                    if self.index(at, &format!("{}.subrs", nm), cff2).is_some() {
-                        for k in 0..6 {
-                            if let Some((a, b)) = self.index_item(at, k, cff2) {
-                                self.charstring(a, b, &format!("{}.subr[{}]", nm, k));
-                            }
+            match fdsel {
+                None => 0,
+                Some((fs, 0)) => w.u8(fs + 1 + g).unwrap_or(0),
+                Some((fs, 3)) => {
+                    let nr = w.u16(fs + 1).unwrap_or(0);
+                    let mut fd = 0;
+                    for k in 0..nr {
+                        match w.u16(fs + 3 + 3 * k) {
+                            Some(first) if first <= g => fd = w.u8(fs + 5 + 3 * k).unwrap_or(0),
+                            _ => break,
                         }
                     }
+                    fd
+                }
+                Some((fs, _)) => {
+                    let nr = w.u32(fs + 1).unwrap_or(0);
+                    let mut fd = 0;
+                    for k in 0..nr {
+                        match w.u32(fs + 5 + 6 * k) {
+                            Some(first) if first <= g => fd = w.u16(fs + 9 + 6 * k).unwrap_or(0),
+                            _ => break,
+                        }
+                    }
+                    fd
+                }
+            }
+        };
+        let mut cs = Cs { cff2, gsubr_at, gcount, lsubr_at: 0, lcount: 0, stack: Vec::new(), stems: 0, wp: cff2, frames: Vec::new(), steps: 0, region_counts, vsindex: 0, emitted_top: 0, emitted_sub: 0, seen: std::collections::BTreeSet::new(), seac: 0, done: false };
+        if cs_at > 0 {
+            for g in outline_gids(n_glyphs.min(65535) as u16) {
+                let g = g as usize;
+                let (a, b) = match self.index_item(cs_at, g, cff2) {
+                    Some(x) => x,
+                    None => continue,
+                };
+                let (la, lc, vsi) = lsubrs.get(fd_of(self, g)).copied().unwrap_or((0, 0, 0));
+                cs.lsubr_at = la;
+                cs.lcount = lc;
+                cs.vsindex = vsi;
+                cs.stack.clear();
+                cs.frames.clear();
+                cs.stems = 0;
+                cs.wp = cff2;
+                cs.steps = 0;
+                cs.done = false;
+                self.cs_exec(a, b, &mut cs, &format!("charstring[{}]", g), 0);
+                if cs.emitted_sub >= 64 {
+                    break;
                 }
             }
         }
